@@ -27,6 +27,8 @@ structure Params where
   /-- every RTP read hands the packet to the loop over an unbuffered channel, selecting on close
   (twcc sender, rfc8888): without a loop the read waits for Close. -/
   readHandoff : Bool := false
+  /-- every NACK read starts a (tracked) retransmission goroutine (NACK responder). -/
+  resendsOnNack : Bool := false
   deriving Repr
 
 /-- a call that did not return when it was issued. -/
